@@ -660,7 +660,7 @@ def _run_rows(items, rounds=True):
             site = 'bad'
             try:
                 alt = spec_eval(ftree, env=env, sheet=SHEETS[si], mode='python')
-                if agrees(got, alt):
+                if agrees(got, alt) or (isinstance(got, str) and isinstance(alt, str) and _NEGZERO.sub('0.0', got) == _NEGZERO.sub('0.0', alt)):
                     site = 'textform'
             except Out:
                 pass
@@ -694,6 +694,9 @@ def _run_rows(items, rounds=True):
             if res['evaluations'] == 0:
                 res['status'] = 'skip'
     return results
+
+
+_NEGZERO = re.compile(r'-0\.0(?![0-9])')          # str(-0.0): a value-equal regrouping such as -(a*b) seen through &
 
 
 class _Rejected(Exception):
@@ -840,7 +843,10 @@ def classify(results, evaluate=run_shapes):
                     ok = False
                     break
                 if nxt is None:
-                    keys[cur] = ('C01.group.' if kind(s) == 'bad' else 'C01.reject.') + skeleton(cur) + '|' + cur
+                    sk = skeleton(cur)
+                    if kind(s) == 'bad':                      # -+-a and a%%% are one operator class each
+                        sk = re.sub(r'\b(unary|pct)(_\1)+\b', r'\1', sk)
+                    keys[cur] = ('C01.group.' if kind(s) == 'bad' else 'C01.reject.') + sk + '|' + cur
                     break
                 cur = nxt
             if ok:
